@@ -40,13 +40,15 @@ where
 	match input.into() {
 		Input::Reader(r) => transcode_reader(BufReader::new(r), output),
 		Input::Slice(b) => match str::from_utf8(&b) {
-			Ok(s) => {
+			// ASCII-only text in UTF-16 or UTF-32 is also valid UTF-8 (full of
+			// NUL characters), so validity alone can't select the fast path.
+			Ok(s) if matches!(Encoding::detect(&b), Encoding::Utf8) => {
 				for de in serde_yaml::Deserializer::from_str(s) {
 					output.transcode_from(de)?;
 				}
 				Ok(())
 			}
-			Err(_) => {
+			_ => {
 				// The reader path supports automatic re-encoding of UTF-16 and
 				// UTF-32 input. See transcode_reader for details.
 				transcode_reader(&*b, output)
